@@ -3,7 +3,7 @@ package main
 import "strings"
 
 func fragJobs(tier string) []*Job {
-	b := 2000000
+	b := 5000000
 	mk := func(name, entry string, n int, bound string) *Job {
 		return &Job{Name: name, Pkg: "ti", Entry: entry, N: n, Budget: b, MaxDepth: 300, Reach: []string{"ran"}, Asserts: []string{"C01-output-lines"}, Replay: "program", Config: "core", Bound: bound + "; configuration: core subset of the shipped test configuration (19 files: array, hash, integer, string, ... without device/ActiveRecord/test-only classes)"}
 	}
@@ -27,6 +27,11 @@ func init() {
 	fns := []string{"ti.evaluationLoop", "(*ti/eval.Evaluator).Eval", "(*ti/parser.Parser).Read", "(*ti/lexer.Lexer).Advance", "every ti/eval Evaluation method and ti/eval/method_evaluator strategy reached"}
 	register(&Property{ID: "C01", Jobs: fragJobs, Stubs: stubs, Outside: outside, Functions: fns,
 		Filter: func(v *Violation) bool { return strings.HasPrefix(v.Kind, "panic") || v.Kind == "assert" }})
-	register(&Property{ID: "C02", Jobs: fragJobs, Stubs: stubs, Outside: outside, Functions: fns,
+	register(&Property{ID: "C02", Stubs: stubs, Outside: outside, Functions: fns,
+		Jobs: func(tier string) []*Job {
+			// F1 half: the lexer/parser loops on every rune string up to N (shared with C03)
+			js := properties["C03"].Jobs(tier)
+			return append(js, fragJobs(tier)...)
+		},
 		Filter: func(v *Violation) bool { return v.Kind == "budget" }})
 }
